@@ -14,6 +14,9 @@ CFG = {
         "Swat4.C15.enqueueAll_run",
         "Swat4.C15.refresh_exact",
         "Swat4.C15.revive_exact",
+        "Swat4.C15.enqueueAll_run_general",
+        "Swat4.C15.revive_overlong",
+        "Swat4.C15.revive_overlong_count",
         "Swat4.C15.revive_ready_window",
         "Swat4.C15.revive_empty_window",
         "Swat4.C15.mem_filter",
@@ -37,7 +40,8 @@ CFG = {
     "manifest": {
         "text": "Lean theorems refresh_exact and revive_exact: running the use case on any registry and queue appends exactly one probe per selected "
                 "server (selection = the declarative predicate: refresh_pred / revive_pred), with exactly the stated fields, ready and expiry times, "
-                "leaves the registry untouched and reports the number selected (= enqueued when countdown <= interval); revive_empty_window (scope <= "
+                "leaves the registry untouched and reports the number selected (= enqueued when countdown <= interval); revive_overlong (any countdown, in particular countdown > interval, no hypotheses: the queue grows by exactly the selected "
+                "servers whose drawn ready time is before the deadline while the reported count is the number selected; concrete instance with count 1 and nothing queued); revive_empty_window (scope <= "
                 "interval: nothing), revive_ready_window (ready in [now, now+countdown), = now for countdown 0). Unbounded registry size, by induction "
                 "over the selection. Tied to refreshservers.go / reviveservers.go and the components' request construction by full-queue comparison on "
                 "generated registries and settings.",
